@@ -157,7 +157,11 @@ Qed.
 Lemma on_retract_response_scr s w ids s' : on_retract_response s w ids = Ok s' -> scr (core_of s) (core_of s').
 Proof.
   unfold on_retract_response. intros H. destruct (retract_response_states _ w ids []) as [c' groups] eqn:E.
-  rewrite (send_redirected_core _ _ _ H). cbn. eapply retract_response_states_scr; exact E.
+  apply bind_ok in H. destruct H as (s2 & H & H2).
+  assert (X2 : scr (core_of s) (core_of s2)).
+  { rewrite (send_redirected_core _ _ _ H). cbn. eapply retract_response_states_scr; exact E. }
+  destruct (retract_wakes _ _ _ _); inversion H2; subst s'; clear H2; [|exact X2].
+  eapply scr_trans; [exact X2 | apply scr_tasks; reflexivity].
 Qed.
 
 (** * Server: worker loss *)
